@@ -99,9 +99,13 @@ def drive(lib, name, seed, nsteps, criterion, perturbation, loadings=None, hyps=
                     g1 = [x1 * c for c in d]
                     dt = max(abs(x1 - x0), 1e-9) / rate
                     out("@@C43 STEP %s %s %d %.17g %.17g" % (hyp, lname, istep, x0, x1))
-                    o = b.b.integrate(4 if (istep % 3 == 0) else 0, dt, g0, g1, thf, mp, isv, esv, esv)
+                    o = b.b.integrate(4, dt, g0, g1, thf, mp, isv, esv, esv)
                     LIBC.fflush(None)
-                    out("@@C43 RC %d" % o["rc"])
+                    # largest increment of every internal state variable (the parent needs to know which unknowns moved)
+                    incs = []
+                    for nme, ty, off, sz in b.d["isvs"]:
+                        incs.append("%s=%d=%.3g" % (nme, sz, max(abs(o["isv"][off + k] - isv[off + k]) for k in range(sz)) if o["rc"] >= 0 else 0.0))
+                    out("@@C43 RC %d %s" % (o["rc"], ";".join(incs)))
                     hres["calls"] += 1
                     if o["rc"] >= 0 and all(math.isfinite(v) for v in o["thf"]):
                         thf, isv = o["thf"], o["isv"]
